@@ -149,7 +149,7 @@ def _c06(seed, quick):
 def _c11(seed, quick):
     m, mb = (12, 40) if quick else (300, 420)
     return {
-        "shards": conc_shards("C11", seed, "burst", m, mb),
+        "shards": conc_shards("C11", seed, "burst", m, mb, shards=14) + conc_shards("C11", seed, "held-client", 600 if quick else 20000, mb, shards=2),
         "rule": "Bursts of 10-300 un-awaited writes from 1-16 threads, command_buffer_size in {1,2,3,8,32768}, worker slowed at its dequeue / before its acknowledgement "
                 "so that the queue really fills. distinct = hash of the execution order (thread, per-thread sequence number); non-trivial = at least 10 queued "
                 "commands and, with more than one thread, cross-thread ordered pairs were available.",
@@ -159,7 +159,7 @@ def _c11(seed, quick):
                        "completes in submission order per thread and carries the ExecEnd status, put+delete of a private key without awaiting leaves it absent, "
                        "and the final contents / KeysAdded / KeysDeleted equal a sequential replay of the executed commands.",
         "assumptions": ["no memory pressure in this scenario (cache weight 10^8) so that the sequential replay is exact"],
-        "require": ["commands_executed", "same_thread_ordered_pairs_checked", "cross_thread_ordered_pairs_checked", "wake_order_pairs_checked", "sends_that_found_the_queue_full", "final_content_checks"],
+        "require": ["commands_executed", "same_thread_ordered_pairs_checked", "cross_thread_ordered_pairs_checked", "wake_order_pairs_checked", "sends_that_found_the_queue_full", "final_content_checks", "bursts_with_expiring_keys", "pipelined_upsert_bursts_checked"],
     }
 
 
@@ -273,7 +273,7 @@ def _c03_extra(seed, quick):
     # free-running concurrent histories without memory pressure (final value of every key whose last write was not overlapped) and the
     # directed sweeper-vs-reput race
     return (conc_shards("C03", seed, "mixed", 30 if quick else 600, 40 if quick else 400, shards=2) + conc_shards("C03", seed, "sweep-reput", 60 if quick else 3000, 40 if quick else 400, shards=1)
-            + conc_shards("C03", seed, "sweep-other-key", 144 if quick else 3000, 40 if quick else 400, shards=1))
+            + conc_shards("C03", seed, "sweep-other-key", 144 if quick else 3000, 40 if quick else 400, shards=1) + conc_shards("C03", seed, "same-key", 80 if quick else 3000, 40 if quick else 400, shards=1))
 
 
 def _c09_extra(seed, quick):
